@@ -13,7 +13,7 @@ func init() {
 	register(&PropDef{
 		ID:    "C42",
 		Pkgs:  []string{xdsc},
-		Claim: "Decides the structural part by value flow: a NACK carries the version that was stored before the response (read before any store), the response's nonce and an error detail; an ACK carries the response's version and nonce; the stored version advances only on the accepting arm; the stored nonce is replaced before either send; a new stream resets every type's nonce before re-sending with the stored version and the currently subscribed names; the node identifier is attached exactly while the first-request flag is set, which is raised only after a successful stream creation and lowered only after a successful send; the response handler is called only after flow-control clearance with the pending flag raised and a once-only completion callback; per-type state is accessed under the stream mutex.",
+		Claim: "Decides the structural part by value flow: a NACK carries the version that was stored before the response (read before any store), the response's nonce and an error detail; an ACK carries the response's version and nonce; the stored version advances only on the accepting arm; the stored nonce is replaced before either send; a new stream resets every type's nonce before re-sending with the stored version and the currently subscribed names; the node identifier is attached exactly while the first-request flag is set, which is raised only after a successful stream creation and lowered only after a successful send; the response handler is called only after flow-control clearance with the pending flag raised and a once-only completion callback; per-type state is accessed under the stream mutex. A failed send is never turned into success, every type with subscriptions is re-requested on a new stream, watch timers are started after every successful send for the names just requested, and a response is attributed only to the type whose URL equals the response's.",
 		NotDecided:  []string{"the request sequence as a whole against the xDS protocol state machine over all histories of responses, subscriptions and stream restarts"},
 		Assumptions: []string{"the transport delivers messages in order"},
 		Technique:   "static analysis: value-origin of call arguments and stored values over go/ssa, dominating guards, ordering (dominance) of loads/stores, must-pass-through, must-lockset",
